@@ -309,6 +309,89 @@ fn sb_case(ctx: &mut Ctx, m: &str, tape: &[u8], rs: &[String], ws: &[String], cl
     ctx.monitor(verdict.is_none(), "C16-serial-exchange", &line, verdict.as_deref().unwrap_or(""));
 }
 
+/// Several exchanges on ONE SerialSignBus: an exchange must not be influenced by an earlier one on the same bus (a
+/// reply cut off by a read failure, a failed write, a reply nobody asked for ...).
+fn gen_c16_sequences(ctx: &mut Ctx, rng: &mut Rng) {
+    let a = 3u16;
+    let askers: Vec<String> = vec![format!("HE.{}", a), format!("QS.{}", a), format!("RO.{}.RPX", a), format!("RO.{}.FRS", a)];
+    let silent: Vec<String> = vec![format!("PC.{}", a), format!("GB.{}", a), "DC.2".to_string(), "SD.16.0102".to_string(), format!("UN.{}.2.FF", a)];
+    let replies: Vec<Vec<u8>> = vec![
+        enc_msg(&format!("RS.{}.PLD", a)),
+        enc_msg(&format!("AO.{}.RPX", a)),
+        enc_msg(&format!("RS.{}.UNC", a)),
+        enc(a, 9, &[1, 2, 3], true),
+        enc(a, 0, &(0..255).collect::<Vec<u8>>(), true),
+        b":00\r\n".to_vec(),
+    ];
+    let n = if ctx.tier_thorough { 4000 } else { 400 };
+    for k in 0..n {
+        let len = 2 + rng.below(3) as usize;
+        let mut msgs: Vec<String> = vec![];
+        let mut tape: Vec<u8> = vec![];
+        for i in 0..len {
+            let ask = if k % 4 == 0 { true } else { rng.chance(2, 3) };
+            if ask {
+                msgs.push(rng.pick(&askers).clone());
+                if !(i + 1 == len && rng.chance(1, 6)) {
+                    tape.extend(rng.pick(&replies));
+                }
+            } else {
+                msgs.push(rng.pick(&silent).clone());
+            }
+        }
+        // faults: a hard read failure part-way through the first reply line, or a failing / zero-length write,
+        // or just fragmentation and interrupts
+        let (rs, ws): (Vec<String>, Vec<String>) = match k % 4 {
+            0 => {
+                let at = 1 + rng.below(12) as usize;
+                let mut rs: Vec<String> = (0..at).map(|i| if i % 5 == 4 { "I".to_string() } else { "D0".to_string() }).collect();
+                rs.push(RFAIL_KINDS[k / 4 % RFAIL_KINDS.len()].to_string());
+                (rs, vec![])
+            }
+            1 => {
+                let at = rng.below(20) as usize;
+                let mut ws: Vec<String> = (0..at).map(|_| format!("A{}", rng.below(4))).collect();
+                ws.push(if rng.chance(1, 2) { "Z".to_string() } else { WFAIL_KINDS[k / 4 % WFAIL_KINDS.len()].to_string() });
+                (vec![], ws)
+            }
+            2 => (
+                (0..rng.below(30)).map(|_| if rng.chance(1, 4) { "I".to_string() } else { format!("D{}", rng.below(6)) }).collect(),
+                (0..rng.below(20)).map(|_| if rng.chance(1, 4) { "I".to_string() } else { format!("A{}", rng.below(6)) }).collect(),
+            ),
+            _ => (vec![], vec![]),
+        };
+        let line = format!("SBS {} {} {} {} / {}", len, msgs.join(" "), hex_of_bytes(&tape), rs.join(" "), ws.join(" "));
+        let line = line.replace("  ", " ").trim_end().to_string();
+        let res = ctx.case(line.clone(), true, ["read-fault-then-more", "write-fault-then-more", "fragmented-sequence", "clean-sequence"][k % 4]);
+        // property-level monitor for the fault-free kinds: each reply-bearing message gets the decoding of the next
+        // line of the tape (error if undecodable or missing), the others get no reply; everything written, in order
+        if k % 4 >= 2 {
+            let mut rest: &[u8] = &tape;
+            let mut want: Vec<String> = vec![];
+            let mut out: Vec<u8> = vec![];
+            for m in &msgs {
+                out.extend(enc_msg(m));
+                if m.starts_with("HE.") || m.starts_with("QS.") || m.starts_with("RO.") {
+                    let (l, r) = first_line(rest);
+                    rest = r;
+                    let d = dec(l);
+                    want.push(if let Some(f) = d.strip_prefix("OK ") {
+                        let p: Vec<&str> = f.split('.').collect();
+                        let mm = crate::eval::eval_case(&format!("F2M {} {} {}", p[0], p[1], p[2]));
+                        format!("OK {}", mm.split(' ').next().unwrap())
+                    } else {
+                        "ER".to_string()
+                    });
+                } else {
+                    want.push("OK N".to_string());
+                }
+            }
+            let wanted = format!("{} | {} | {}", want.join(" ; "), hex_of_bytes(&out), hex_of_bytes(rest));
+            ctx.monitor(res == wanted, "C16-serial-exchange", &line, &format!("wanted [{}] got [{}]", &wanted[..wanted.len().min(300)], &res[..res.len().min(300)]));
+        }
+    }
+}
+
 fn gen_c16(ctx: &mut Ctx) {
     let mut rng = Rng::new(ctx.seed, 16);
     let thorough = ctx.tier_thorough;
@@ -340,6 +423,7 @@ fn gen_c16(ctx: &mut Ctx) {
         let ws: Vec<String> = (0..rng.below(8)).map(|_| if rng.chance(1, 4) { "I".to_string() } else { format!("A{}", rng.below(6)) }).collect();
         sb_case(ctx, m, tape, &rs, &ws, "fragmented");
     }
+    gen_c16_sequences(ctx, &mut rng);
 }
 
 // ---------------------------------------------------------------------------------------------
